@@ -2,7 +2,9 @@ import ZChain.Drv.Util
 import ZChain.Model.AlgWorld
 import ZChain.Model.Notarize
 /-! Line driver for C31 (notarization): the crypto world's keys/signatures plus one miner node:
-`miners <k>` (magic block = keys n0..n<k-1>, threshold ceil(66%)) | `block <name> <gen> <h>` | `attach <name> <who:sigidx,…|->` |
+`miners <k>` (one magic block = keys n0..n<k-1>, threshold ceil(66%), blocks in round 1) |
+`miners2 <j,…> <j,…>` (two magic blocks, starting rounds 0 and 100, with the given miner sets; slot 0 = round 50, slot 1 = round 200) |
+`block <name> <gen> <h> [slot]` | `attach <name> <who:sigidx[:u],…|->` (`:u` = the signature in upper-case hex) |
 `propose <name>` | `know <name>` | `ticket <name> <who>:<sigidx>` | `notarization <name> <who:sigidx,…>` | `nblock <name>` |
 `status <name>`. `who` is `n<j>` (miner j) or `x<j>` (a foreign id). The message token of a block's hash is `blk-<name>`. -/
 namespace ZChain.Drv.C31
@@ -13,6 +15,7 @@ structure St where
   nd : Option (Node Fr) := none
   names : List (String × Nat) := []            -- block name ↦ id
   gens : List (String × Nat) := []
+  slots : List (String × Nat) := []
   attached : List (String × List (Ticket Fr)) := []
 deriving Inhabited
 
@@ -29,7 +32,11 @@ def ticket? (s : St) (e : String) : Option (Ticket Fr) :=
   | [w, si] => do
     let v ← who? w
     let σ ← si.toNat?.bind (sig? s.w)
-    pure ⟨v, σ⟩
+    pure ⟨v, σ, 0⟩
+  | [w, si, "u"] => do
+    let v ← who? w
+    let σ ← si.toNat?.bind (sig? s.w)
+    pure ⟨v, σ, 1⟩
   | _ => none
 
 def tickets? (s : St) (es : String) : Option (List (Ticket Fr)) := (splitList es).mapM (ticket? s)
@@ -47,7 +54,8 @@ def mkBlk (s : St) (n : String) : Option (Blk Fr) := do
   let id ← blockId? s n
   let h ← msg? s.w s!"blk-{n}"
   let g ← (s.gens.find? (·.1 == n)).map (·.2)
-  pure { id := id, gen := g, h := h, tickets := attachedOf s n, notarized := false }
+  let sl ← (s.slots.find? (·.1 == n)).map (·.2)
+  pure { id := id, gen := g, slot := sl, h := h, tickets := attachedOf s n, notarized := false }
 
 def step (s : St) (ws : List String) : St × String :=
   match ws with
@@ -56,15 +64,35 @@ def step (s : St) (ws : List String) : St × String :=
       match (List.range k).mapM (fun j => key? s.w s!"n{j}") with
       | some sks =>
         if k = 0 then (s, "bad-op") else
-        ({ s with nd := some { pks := sks.map pubKey, threshold := (k * 66 + 99) / 100, blocks := [], store := [], roundNotarized := [], complete := false },
-                  names := [], gens := [], attached := [] }, "ok")
+        ({ s with nd := some { pks := sks.map pubKey, pools := [List.range k], thresholds := [(k * 66 + 99) / 100],
+                               blocks := [], store := [], roundNotarized := [], complete := [] },
+                  names := [], gens := [], slots := [], attached := [] }, "ok")
       | none => (s, "bad-op")
     | none => (s, "bad-op")
-  | ["block", n, g, h] => match s.nd, g.toNat?, Fr.parse? h with
+  | ["miners2", l0, l1] => match natList? l0, natList? l1 with
+    | some l0, some l1 =>
+      let top := (l0 ++ l1).foldl max 0
+      match (List.range (top + 1)).mapM (fun j => key? s.w s!"n{j}") with
+      | some sks =>
+        if l0.isEmpty ∨ l1.isEmpty ∨ !l0.contains 0 ∨ l0.eraseDups.length != l0.length ∨ l1.eraseDups.length != l1.length then (s, "bad-op") else
+        ({ s with nd := some { pks := sks.map pubKey, pools := [l0, l1],
+                               thresholds := [(l0.length * 66 + 99) / 100, (l1.length * 66 + 99) / 100],
+                               blocks := [], store := [], roundNotarized := [], complete := [] },
+                  names := [], gens := [], slots := [], attached := [] }, "ok")
+      | none => (s, "bad-op")
+    | _, _ => (s, "bad-op")
+  | "block" :: n :: g :: h :: rest => match s.nd, g.toNat?, Fr.parse? h with
     | some nd, some g, some h =>
-      if g ≥ nd.pks.length ∨ (blockId? s n).isSome then (s, "bad-op") else
-      ({ s with names := s.names ++ [(n, s.names.length)], gens := s.gens ++ [(n, g)],
-                w := { s.w with msgs := (s.w.msgs.filter (·.1 != s!"blk-{n}")) ++ [(s!"blk-{n}", h)] } }, "ok")
+      let sl := match rest with
+        | [] => some 0
+        | [x] => x.toNat?
+        | _ => none
+      match sl with
+      | some sl =>
+        if sl ≥ nd.pools.length ∨ !(nd.pools.getD sl []).contains g ∨ (blockId? s n).isSome then (s, "bad-op") else
+        ({ s with names := s.names ++ [(n, s.names.length)], gens := s.gens ++ [(n, g)], slots := s.slots ++ [(n, sl)],
+                  w := { s.w with msgs := (s.w.msgs.filter (·.1 != s!"blk-{n}")) ++ [(s!"blk-{n}", h)] } }, "ok")
+      | none => (s, "bad-op")
     | _, _, _ => (s, "bad-op")
   | ["attach", n, es] => match blockId? s n, tickets? s es with
     | some _, some ts => ({ s with attached := (s.attached.filter (·.1 != n)) ++ [(n, ts)] }, "ok")
@@ -76,7 +104,7 @@ def step (s : St) (ws : List String) : St × String :=
     | some nd, some b => let nd' := know nd b; ({ s with nd := some nd' }, status s nd' n)
     | _, _ => (s, "bad-op")
   | ["ticket", n, e] => match s.nd, mkBlk s n, ticket? s e with
-    | some nd, some b, some t => let nd' := handleTicket nd b.id b.h t; ({ s with nd := some nd' }, status s nd' n)
+    | some nd, some b, some t => let nd' := handleTicket nd b.id b.slot b.h t; ({ s with nd := some nd' }, status s nd' n)
     | _, _, _ => (s, "bad-op")
   | ["notarization", n, es] => match s.nd, mkBlk s n, tickets? s es with
     | some nd, some b, some ts =>
